@@ -241,6 +241,9 @@ func (r *ruleState) onMessage(m *MsgRec) {
 			return
 		}
 		r.observe("notify message", body.Promise, r.s.Ev)
+		if t := r.s.Last.Tasks[m.TaskId]; t != nil && body.Promise.Id != t.RootPromiseId {
+			r.s.violate("C19.notify_wrong_promise", P("C19", "C08"), "notify", "notification carries another promise than the one subscribed to", fmt.Sprintf("task %s (promise %q): %s", m.TaskId, t.RootPromiseId, m.Body))
+		}
 		if body.Promise.State == promise.Pending {
 			r.s.violate("C19.notify_pending", P("C19", "C08", "C01"), "notify", "pending promise in notification", m.Body)
 		}
